@@ -126,6 +126,32 @@ type source struct {
 	wrapEOF  bool // the injected failure may wrap io.EOF / io.ErrUnexpectedEOF
 }
 
+// seekSource: a source that can also Seek, ReadByte and WriteTo (frag 5), with the semantics of *os.File /
+// bytes.Reader
+type seekSource struct{ *source }
+
+func (s *seekSource) Seek(off int64, whence int) (int64, error) {
+	var abs int64
+	switch whence {
+	case io.SeekStart:
+		abs = off
+	case io.SeekCurrent:
+		abs = int64(s.pos) + off
+	case io.SeekEnd:
+		abs = int64(len(s.data)) + off
+	}
+	if abs < 0 {
+		return 0, errors.New("verif: negative position")
+	}
+	if abs > int64(len(s.data)) {
+		s.pos = len(s.data) // reads beyond the end report io.EOF, as for a file
+		s.consumed = len(s.data)
+		return abs, nil
+	}
+	s.pos = int(abs)
+	return abs, nil
+}
+
 func (s *source) Read(p []byte) (int, error) {
 	s.calls++
 	if s.failAt > 0 && (s.calls == s.failAt || (!s.once && s.calls > s.failAt)) {
@@ -606,7 +632,13 @@ func runRS(c *rsCase) string {
 		var ms0 runtime.MemStats
 		runtime.ReadMemStats(&ms0)
 		src := &source{data: c.in, frag: c.frag, failAt: c.fault, wrapEOF: true, r: newRng(uint64(len(c.in)), "rs")}
-		zr := lz4.NewReader(src)
+		var rd io.Reader = src
+		if c.frag == 5 {
+			// what callers usually pass: a source with more methods than Read (a file, a bytes.Reader:
+			// Seek beyond the end succeeds, the next Read reports io.EOF)
+			rd = &seekSource{src}
+		}
+		zr := lz4.NewReader(rd)
 		var res []string
 		var delivered []byte
 		if c.conc != 1 {
